@@ -90,7 +90,7 @@ Definition findings_port (e : senv) (d : definitions) (p : port) : list (list na
 Definition findings (e : senv) (d : definitions) : list (list nat) :=
   flat_map (fun s => flat_map (findings_port e d) (svc_ports s)) (d_services d).
 
-Definition names_distinct (d : definitions) : bool := nodup_str (map sd_name (expected [] d)).
+Definition names_distinct (e : senv) (d : definitions) : bool := nodup_str (map sd_name (expected e d)).
 
 (* clause 10, on the whole document *)
 Definition part_ref (p : part) : option (str * str) :=
@@ -107,7 +107,7 @@ Definition no_shadow (d : definitions) : bool :=
 
 (* the guard of the mapper theorem *)
 Definition guard (e : senv) (d : definitions) : bool :=
-  forallb (fun l => match l with [] => true | _ => false end) (findings e d) && names_distinct d && no_shadow d.
+  forallb (fun l => match l with [] => true | _ => false end) (findings e d) && names_distinct e d && no_shadow d.
 
 (* ------------------------------------------------------------------ oracle (ii): real output vs expected
    per expected description: 0 = the generated service says exactly what `expected` says;
